@@ -588,6 +588,11 @@ def faceeval(f, *args):
     >>> f = pf.FaceVariable(m, 1.0)
     >>> g = pf.faceeval(lambda x: x**2, f)
     """
+    # always build the result from new arrays, also when the function hands
+    # (a view of) its argument back: the result must not share memory with
+    # the FaceVariables it was computed from
+    f_user = f
+    f = lambda *a: np.array(f_user(*a))
     if len(args)==1:
         return FaceVariable(args[0].domain,
                             f(args[0]._xvalue),
